@@ -59,6 +59,12 @@ func genHistory(rt *rapid.T, o hgenOpts) history {
 				continue
 			}
 			ops = append(ops, hop{K: "ev", S: s, T: pick(rt, "t", evTypeNames), P: evPid(rt, s, nS)})
+			if rapid.IntRange(0, 19).Draw(rt, "burst") == 0 {
+				// a burst: a busy session logs many records in a row
+				for b := rapid.IntRange(4, 12).Draw(rt, "burstn"); b > 0 && len(ops) < n+12; b-- {
+					ops = append(ops, hop{K: "ev", S: s, T: pick(rt, "tb", evTypeNames), P: s})
+				}
+			}
 		case k < 82: // disp
 			if !opened[s] || disped[s] {
 				continue
